@@ -55,7 +55,14 @@ func keepsCode(what string, got ctab.Flat, first ctab.Flat) error {
 }
 
 func check(c Case) error {
-	ta, tb := c.TA.Build(), c.TB.Build()
+	// a table that was re-weighted before (ctab.Spec.Twice) has been combined in that earlier state: what the judged
+	// calls return depends on the tables' present weights only
+	earlier := func(t codon.Table) {
+		defer func() { _ = recover() }()
+		_, _ = codon.CompromiseCodonTable(t, t, 0.1)
+		_ = codon.AddCodonTable(t, t)
+	}
+	ta, tb := c.TA.BuildWith(earlier), c.TB.BuildWith(earlier)
 	// give the second table start/stop lists of its own (same code, user-edited lists), so that
 	// "keeps the first table's start/stop codons" is observable
 	tb.StartCodons = append([]string{"NNN"}, tb.StartCodons...)
